@@ -38,6 +38,7 @@ const (
 	tagDealloc   = "ext4-dealloc-block-group"
 	tagRmStale   = "ext4-remove-stale-dir-block"
 	tagDirShrink = "ext4-writedirectory-shrinks-size"
+	// tagIndexFull (ext4-extent-node-overfull-panic) is declared in exttreeUnit.go
 )
 
 const MiB = int64(1 << 20)
@@ -74,11 +75,17 @@ func Run(c *hx.Ctx) {
 	}
 	e := &engine{c: c, fsck: c.Args["mode"] == "fsck"}
 	e.probeDefects()
+	if os.Getenv("VERIF_EXTTREE_DEV") != "" {
+		exttreeCases(c, c.Rng.Fork())
+		e.deepTrees()
+		return
+	}
 	if !e.fsck {
 		unitCases(c)
 	} else {
 		allocCases(c)
 	}
+	e.deepTrees()
 	e.histories()
 }
 
